@@ -60,6 +60,40 @@ def _is_float_dt(dtype):
     return dtype is None or dtype is float or (isinstance(dtype, type) and issubclass(dtype, _np.float64))
 
 
+class IntObjArr(_np.ndarray):
+    """Stand-in for an integer-typed numpy array that may have to hold symbolic values: an object array whose element
+    assignment casts like numpy does for an int64 array - floats (concrete or symbolic reals) are truncated toward zero."""
+
+    def __new__(cls, shape, fill=0):
+        a = _np.empty(shape, dtype=object).view(cls)
+        a.fill(builtins.int(fill))
+        return a
+
+    def __setitem__(self, key, value):
+        def cast(v):
+            if isinstance(v, Sym):
+                return sym_int(v)
+            if isinstance(v, (float, _np.floating)):
+                return builtins.int(v)
+            return v
+
+        if isinstance(value, _np.ndarray) or isinstance(value, (list, tuple)):
+            value = _np.array([cast(v) for v in _np.asarray(value, dtype=object).ravel()], dtype=object).reshape(_np.shape(value))
+        else:
+            value = cast(value)
+        _np.ndarray.__setitem__(self, key, value)
+
+
+def _infers_int(fill_value):
+    """numpy's dtype inference for a concrete fill value: integer / bool kinds."""
+    if isinstance(fill_value, Sym):
+        return False
+    try:
+        return _np.result_type(fill_value).kind in "iub"
+    except TypeError:
+        return False
+
+
 class NpProxy:
     """Module-like object: getattr falls back to real numpy."""
 
@@ -95,12 +129,16 @@ class NpProxy:
 
     def full(self, shape, fill_value, dtype=None):
         if dtype is None:
+            if _infers_int(fill_value):
+                return IntObjArr(shape, fill_value)  # np.full infers an integer array from an integer fill value
             a = _np.empty(shape, dtype=object)
             a.fill(fill_value)
             return a
         return _np.full(shape, fill_value, dtype=dtype)
 
     def zeros_like(self, a, dtype=None):
+        if dtype is None and (isinstance(a, IntObjArr) or (isinstance(a, _np.ndarray) and a.dtype.kind in "iub")):
+            return IntObjArr(_np.shape(a), 0)  # the element type is inherited
         return self.zeros(_np.shape(a), dtype=dtype)
 
     def array(self, obj, dtype=None, **kw):
@@ -115,6 +153,17 @@ class NpProxy:
 
     def copy(self, a):
         return _np.copy(a)
+
+    def ascontiguousarray(self, a, dtype=None, **kw):
+        """numpy semantics: NO copy when the argument already is a C-contiguous array of the requested type (a lifted object
+        array stands for float64), otherwise a fresh contiguous copy."""
+        if isinstance(a, _np.ndarray) and a.dtype == object:
+            if _is_float_dt(dtype) and a.flags.c_contiguous:
+                return a
+            return _np.ascontiguousarray(a)
+        if any_sym(a):
+            return _np.array(a, dtype=object)
+        return _np.ascontiguousarray(a, dtype=dtype, **kw)
 
     float64 = None  # set below (usable both as constructor and as dtype)
 
@@ -141,6 +190,26 @@ class NpProxy:
                 return _np.array([False if is_sym(v) else bool(_np.isnan(float(v))) for v in x.ravel()], dtype=bool).reshape(x.shape)
             return False
         return _np.isnan(x)
+
+    @staticmethod
+    def isclose(a, b, rtol=1e-05, atol=1e-08, equal_nan=False):  # noqa: FBT002
+        """numpy's definition |a - b| <= atol + rtol * |b| (finite symbolic reals; scalars or equal-shape arrays)."""
+        if not (any_sym(a) or any_sym(b) or any_sym(atol) or any_sym(rtol)):
+            return _np.isclose(a, b, rtol=rtol, atol=atol, equal_nan=equal_nan)
+
+        def one(x, y):
+            d = x - y
+            d = sym_ite(d >= 0, d, -d) if is_sym(d) else abs(d)
+            ay = sym_ite(y >= 0, y, -y) if is_sym(y) else abs(y)
+            return d <= atol + rtol * ay
+
+        if isinstance(a, _np.ndarray) or isinstance(b, _np.ndarray):
+            aa, bb = _np.broadcast_arrays(_np.asarray(a, dtype=object), _np.asarray(b, dtype=object))
+            out = _np.empty(aa.shape, dtype=object)
+            for idx in _np.ndindex(*aa.shape):
+                out[idx] = one(aa[idx], bb[idx])
+            return out
+        return one(a, b)
 
     @staticmethod
     def sign(x):
